@@ -61,7 +61,8 @@ const SUFFIXES: &[&str] = &["", " \"q\\é", "#ünï/{x}", "\t'€😀", ":a,b|c"
 
 /// the text-validation vocabulary has fixed concrete names
 pub const TV_SET: &str = "https://w3id.org/stam/extensions/stam-textvalidation/";
-const RESERVED: &[&str] = &["checksum", "text", "delimiter"];
+pub const TP_SET: &str = "https://w3id.org/stam/extensions/stam-transpose/";
+const RESERVED: &[&str] = &["checksum", "text", "delimiter", "Transposition", "Resegmentation"];
 
 impl IdStyle {
     fn suffix(&self) -> &'static str {
@@ -72,18 +73,31 @@ impl IdStyle {
             String::new()
         } else if abs == "TV" {
             TV_SET.to_string()
+        } else if abs == "TP" {
+            TP_SET.to_string()
         } else if RESERVED.contains(&abs) {
             abs.to_string()
         } else {
             format!("{}{}", abs, self.suffix())
         }
     }
+    /// identifiers the library generates itself (random) are named after the handle of the item that carries them
+    pub fn abs_at(&self, conc: &str, handle1: i64) -> String {
+        if conc.ends_with("-transpositionsource") && conc.len() == 21 + "-transpositionsource".len() {
+            format!("GEN@{}", handle1)
+        } else {
+            self.abs(conc)
+        }
+    }
+
     pub fn abs(&self, conc: &str) -> String {
         let suf = self.suffix();
         if conc.is_empty() {
             String::new()
         } else if conc == TV_SET {
             "TV".to_string()
+        } else if conc == TP_SET {
+            "TP".to_string()
         } else if RESERVED.contains(&conc) {
             conc.to_string()
         } else if suf.is_empty() {
